@@ -84,15 +84,16 @@ def make_reply(outcome, request):
             rrs.add(dns.rdata.from_text("IN", "CNAME", names[i + 1].to_text()), 20 + i)
         rrs = r.find_rrset(r.answer, names[n], IN, q.rdtype, create=True)
         rrs.add(dns.rdata.from_text("IN", "A", "10.0.0.2"), 25)
-    elif outcome in ("dangling-nodata", "dangling-nx"):
-        # CNAME (TTL 3) to a name without data; SOA (TTL 40, minimum 7) in the authority
-        # section: the negative TTL is min(3, 40, 7) = 3
+    elif outcome in ("dangling-nodata", "dangling-nx", "danglingL-nodata", "danglingL-nx"):
+        # CNAME (TTL 3) to a name without data in ANOTHER zone; SOA (TTL 40, minimum 7) of that
+        # zone in the authority section: the negative TTL is min(3, 40, 7) = 3; the L variants
+        # have a long-lived CNAME (TTL 50): min(50, 40, 7) = 7, i.e. the SOA decides
         tgt = dns.name.from_text("c1.target.")
         rrs = r.find_rrset(r.answer, qname, IN, dns.rdatatype.CNAME, create=True)
-        rrs.add(dns.rdata.from_text("IN", "CNAME", tgt.to_text()), 3)
+        rrs.add(dns.rdata.from_text("IN", "CNAME", tgt.to_text()), 50 if outcome.startswith("danglingL") else 3)
         rrs = r.find_rrset(r.authority, dns.name.from_text("target."), IN, dns.rdatatype.SOA, create=True)
         rrs.add(dns.rdata.from_text("IN", "SOA", "m. r. 1 2 3 4 7"), 40)
-        if outcome == "dangling-nx":
+        if outcome.endswith("-nx"):
             r.set_rcode(dns.rcode.NXDOMAIN)
     elif outcome == "nodata":
         rrs = r.find_rrset(r.authority, qname.parent(), q.rdclass, dns.rdatatype.SOA, create=True)
@@ -353,6 +354,8 @@ def ref_outcome_payload(o, cand):
         return (True, chain_names(cand, n)[n], min([20 + i for i in range(n)] + [25]))
     if o == "dangling-nodata":
         return (False, dns.name.from_text("c1.target."), min(3, 40, 7))
+    if o == "danglingL-nodata":
+        return (False, dns.name.from_text("c1.target."), min(50, 40, 7))
     if o == "nodata":
         return (False, cand, min(40, 7))
     if o == "nodata-nosoa":
@@ -434,7 +437,7 @@ def ref_resolve(cfg, script):
                     retry_tcp = server
             elif o == "timeout":
                 clock += timeout
-            elif o in ("answer", "nodata", "nodata-nosoa", "dangling-nodata") or o.startswith("chain"):
+            elif o in ("answer", "nodata", "nodata-nosoa", "dangling-nodata", "danglingL-nodata") or o.startswith("chain"):
                 p = ref_outcome_payload(o, cand)
                 if p is None:
                     usable.remove(server)
@@ -450,7 +453,7 @@ def ref_resolve(cfg, script):
                     if cfg.get("rdtype", "A") != "A" and o == "answer":
                         rr = ['"10.0.0.1"']
                 return done("Answer", qname=ct, canonical=canon.to_text(), rrset=rr, ttl_left=float(ttl), ns="ns%d" % server)
-            elif o in ("nxdomain", "dangling-nx"):
+            elif o in ("nxdomain", "dangling-nx", "danglingL-nx"):
                 nx.append(ct)
                 if cfg["cache"] != "none":
                     cache[(ct, "ANY")] = "nx"
@@ -498,7 +501,7 @@ def invariants(cfg, script, obs):
     if [n for n in dict.fromkeys(x[2] for x in q)] != [c for c in cands if c in {x[2] for x in q}]:
         probs.append(("candidate-order", "queried names %s not in candidate order %s" % (list(dict.fromkeys(x[2] for x in q)), cands)))
     if res["kind"] == "NXDOMAIN":
-        nxnames = {q[i][2] for i, o in enumerate(script[:len(q)]) if o in ("nxdomain", "dangling-nx")}
+        nxnames = {q[i][2] for i, o in enumerate(script[:len(q)]) if o in ("nxdomain", "dangling-nx", "danglingL-nx")}
         nxnames |= {dns.name.from_text(c).to_text() for c, k in cfg.get("preload", []) if k == "nx" and cfg["cache"] != "none"}
         if set(cands) - nxnames:
             probs.append(("nxdomain-without-all-candidates", "NXDOMAIN raised but %s never got NXDOMAIN" % sorted(set(cands) - nxnames)))
@@ -639,8 +642,8 @@ def configs(ctx):
     add("search disabled", servers=1, qname="www", search=["a."], search_arg=False, alphabet=["answer", "nxdomain", "formerr"])
     add("tcp", tcp=True, lifetime=2.0, alphabet=["answer", "truncated", "servfail", "timeout", "nxdomain", "formerr"])
     add("always_max_size server0", always_max=0, lifetime=2.0, alphabet=["answer", "truncated", "timeout", "refused"])
-    add("no raise on no answer", raise_on_no_answer=False, alphabet=["answer", "nodata", "nodata-nosoa", "nxdomain", "refused", "chain2", "dangling-nodata", "dangling-nx"])
-    add("dangling chains with cache", raise_on_no_answer=False, cache="cache", servers=1, alphabet=["dangling-nodata", "dangling-nx", "answer", "timeout"])
+    add("no raise on no answer", raise_on_no_answer=False, alphabet=["answer", "nodata", "nodata-nosoa", "nxdomain", "refused", "chain2", "dangling-nodata", "dangling-nx", "danglingL-nodata"])
+    add("dangling chains with cache", raise_on_no_answer=False, cache="cache", servers=1, alphabet=["dangling-nodata", "dangling-nx", "danglingL-nodata", "danglingL-nx", "answer", "timeout"])
     add("cname chains", servers=1, alphabet=["chain1", "chain15", "chain16", "chain17", "answer", "timeout"])
     add("cache Cache", cache="cache", qname="www", search=["a.", "b."], search_arg=True, servers=1,
         alphabet=["answer", "nodata", "nxdomain", "refused", "timeout", "chain1"])
